@@ -66,8 +66,42 @@ def write_probe(dirpath, spec):
     cbs = [c for c in ("start", "token", "line", "done") if spec[c]]
     methods = "".join(SEM_METHODS[c].format(pid=spec["id"], resets=spec["resets"], tokTrig=spec["tokTrig"],
                                             boom=spec["boom"], lineTrig=spec["lineTrig"], doneReport=spec["doneReport"]) for c in cbs)
-    src = SEM_TMPL.format(cls=cls, name="probe-" + spec["id"].lower(), pid=spec["id"], methods=methods, enabled=bool(spec.get("enabled", True)))
+    src = SEM_TMPL.format(cls=cls, name=",".join(probe_names(spec)), pid=spec["id"], methods=methods, enabled=default_enabled(spec))
     return implib.write(os.path.join(dirpath, mod + ".py"), src)
+
+
+# How a probe's effective `enabled` state comes about (spec["how"]): by its own default, or by -e / -d on the command line
+# naming it by id, first name or second name — including the cross-identifier combinations where "disable beats enable"
+# must hold whichever identifiers are used.  how -> (enabled by default, -e identifier index, -d identifier index); index 0 = id.
+HOWS_ON = {"default": (True, None, None), "e-id": (False, 0, None), "e-name": (False, 1, None), "e-alias": (False, 2, None)}
+HOWS_OFF = {"default": (False, None, None), "d-id": (True, None, 0), "d-name": (True, None, 1), "d-alias": (True, None, 2),
+            "d-alias-e-id": (True, 0, 2), "d-id-e-name": (False, 1, 0), "d-name-e-alias": (False, 2, 1), "d-name-e-id": (True, 0, 1)}
+
+
+def probe_names(spec):
+    return ["probe-" + spec["id"].lower(), "alias-" + spec["id"].lower()]
+
+
+def _how(spec):
+    on = bool(spec.get("enabled", True))
+    return (HOWS_ON if on else HOWS_OFF)[spec.get("how", "default")]
+
+
+def default_enabled(spec):
+    return _how(spec)[0]
+
+
+def cli_selection(specs):
+    """(-e identifiers, -d identifiers) implementing each spec's `how`."""
+    en, dis = [], []
+    for sp in specs:
+        _, e, d = _how(sp)
+        idents = [sp["id"].lower()] + probe_names(sp)
+        if e is not None:
+            en.append(idents[e])
+        if d is not None:
+            dis.append(idents[d])
+    return en, dis
 
 
 _META = {}
@@ -236,8 +270,13 @@ def run_real(ws, specs, texts, cont, extra_args=(), enable_builtin=False):
     for sp in specs:
         argv += ["--add-plugin", write_probe(pdir, sp)]
     ids, _ = builtin_meta()
+    en, dis = cli_selection(specs)
     if not enable_builtin:
-        argv += ["-d", ",".join(ids)]
+        dis = list(ids) + dis
+    if dis:
+        argv += ["-d", ",".join(dis)]
+    if en:
+        argv += ["-e", ",".join(en)]
     if cont:
         argv.append("--continue-on-error")
     argv += list(extra_args) + ["scan"] + names
